@@ -11,7 +11,7 @@ RULE = ("S-syn listings with planted runs / repeated blocks (adjacent, separated
         "character position p >= pos test P.match(S, p), emit the first success, continue at its end - and the list "
         "returned by all-matches mode must equal that scan element by element (hence pairwise disjoint, increasing, every "
         "element a match, nothing skipped in any gap or after the last); first-match mode must return exactly its first "
-        "element; addresses must increase numerically. Non-trivial = the scan yields >= 2 hits or there are overlapping "
+        "element; asking the same matcher object a second time must give the same lists; addresses must increase numerically. Non-trivial = the scan yields >= 2 hits or there are overlapping "
         "candidates (a position inside a reported hit also starts a match); distinct = (rule, listing).")
 FLOOR = {"quick": 150, "thorough": 2000}
 ANCHOR_HINTS = ["consumer", "matched_observers"]
@@ -83,6 +83,16 @@ def monitor(driver, doc, text, prep, o):
     if list(rf[1]) != want[:1]:
         ctx.disagreement(case, f"first-match mode returned {rf[1]}, the first element of the scan is {want[:1]}")
         return
+    # the same matcher object asked again must report the same scan (no hits carried over from the previous scan)
+    for search in ("all", "first"):
+        rt = real.match_twice(rp, prep.path, ret="list", search=search, only_addr=False, macros=driver.macros)
+        ctx.ran(2)
+        expect = want if search == "all" else want[:1]
+        if rt[0] != "ok" or list(rt[1]) != expect or list(rt[2]) != expect:
+            ctx.disagreement(case, f"perform_matching() called twice on one matcher ({search}-match): first {str(rt[1])[:120]}, second {str(rt[2])[:160]}, "
+                                   f"the scan yields {[h[:30] for h in expect[:4]]}")
+            return
+    ctx.event("repeated_scans_compared")
     addrs = [int(t.split("::")[0], 16) for t in want if "::" in t and t.split("::")[0]]
     if len(addrs) == len(want) and any(b <= a for a, b in zip(addrs, addrs[1:])):
         ctx.disagreement(case, f"reported addresses are not increasing: {addrs[:8]}")
